@@ -38,7 +38,7 @@ type c06Case struct {
 	OnlyK    int      `json:"only_k"`         // replay: enumerate a single abort point (-1 = all)
 }
 
-var c06Scenarios = []string{"new-bug", "edit", "new-identity", "mutate-identity", "pull-dag", "pull-dag", "cache-pull", "cache-new-edit"}
+var c06Scenarios = []string{"new-bug", "edit", "new-identity", "mutate-identity", "identity-several-versions", "pull-dag", "pull-dag", "cache-pull", "cache-new-edit"}
 
 func genC06(t *rapid.T) c06Case {
 	c := c06Case{Seed: rapid.Uint64().Draw(t, "seed"), OnlyK: -1}
@@ -210,6 +210,37 @@ func c06Scenario(c c06Case, repo repository.ClockedRepo, authorIds []string, sha
 		steps = append(steps,
 			mutate(func(m *identity.Mutator) { m.Name = "renamed"; m.Email = "renamed@example.org" }),
 			mutate(func(m *identity.Mutator) { m.Login = "login2" }))
+	case "identity-several-versions":
+		// one Commit that stores several pending versions: a new identity mutated before its first commit,
+		// then an existing identity mutated three times and committed once
+		steps = append(steps, func() error {
+			i, err := identity.NewIdentity(repo, "newcomer", "new@example.org")
+			if err != nil {
+				return err
+			}
+			if err := i.Mutate(repo, func(m *identity.Mutator) { m.Name = "newcomer renamed"; m.Login = "nc" }); err != nil {
+				return err
+			}
+			if err := i.Mutate(repo, func(m *identity.Mutator) { m.Email = "second@example.org" }); err != nil {
+				return err
+			}
+			return i.Commit(repo)
+		}, func() error {
+			i, err := identity.ReadLocal(repo, entity.Id(authorIds[0]))
+			if err != nil {
+				return err
+			}
+			for k, f := range []func(m *identity.Mutator){
+				func(m *identity.Mutator) { m.Name = "renamed once" },
+				func(m *identity.Mutator) { m.Email = "renamed@example.org" },
+				func(m *identity.Mutator) { m.Name = "renamed twice"; m.Login = "login3" },
+			} {
+				if err := i.Mutate(repo, f); err != nil {
+					return fmt.Errorf("mutation %d: %w", k, err)
+				}
+			}
+			return i.Commit(repo)
+		})
 	case "pull-dag":
 		steps = append(steps, func() error {
 			if _, err := identity.Fetch(repo, "origin"); err != nil {
@@ -417,6 +448,13 @@ func runC06(tb report.TB, rep *report.Reporter, c c06Case) {
 			allowedId[id][v] = true
 		}
 	}
+	// the shapes (version lists with time-dependent ids normalised) of the identities the complete steps create
+	newIdentShapes := map[string]bool{}
+	for id, v := range post.Idents {
+		if _, inPre := pre.Idents[id]; !inPre {
+			newIdentShapes[v] = true
+		}
+	}
 	judge := func(st repoState, final bool) (sig, detail string) {
 		if st.BugErr > 0 || st.IdErr > 0 {
 			for id, v := range st.Bugs {
@@ -461,8 +499,8 @@ func runC06(tb report.TB, rep *report.Reporter, c c06Case) {
 			case inPre && v == p && !final, inPre && inPost && v == q, !final && allowedId[id][v]:
 			case !inPre:
 				newIds++ // a new identity: its id depends on the wall clock, only its shape is compared
-				if strings.Count(v, ",") != 0 {
-					return "new-identity-shape", v
+				if !newIdentShapes[v] {
+					return "new-identity-shape", fmt.Sprintf("a new identity with versions %q; the complete step creates %v", v, newIdentShapes)
 				}
 			default:
 				return "identity-is-a-mixture", fmt.Sprintf("identity %s\nnow  %s\npre  %s\npost %s", id, v, p, q)
